@@ -185,7 +185,11 @@ class Executor:
             return z3.BoolVal(True)
         if k in ('mat', 'vec'):
             raise Unsupported('truth value of an array')
-        return uf('truthy', Val, VV.B)(v.t)
+        # value of unknown kind: Python truthiness for the constructors that fix it, uninterpreted otherwise
+        t = v.t
+        return z3.If(Val.is_b(t), Val.bv(t),
+                     z3.If(Val.is_none(t), z3.BoolVal(False),
+                           z3.If(Val.is_num(t), Val.nv(t) != 0, uf('truthy', Val, VV.B)(t))))
 
     # ------------------------------------------------------- obligations
     def oblige(self, st: State, kind: str, label: str, goal, node=None, note=''):
@@ -868,9 +872,23 @@ class Executor:
                 k += 1
             plen = k
         conds = []
+        hoisted = []
+        from .verify import has_quantifier
         for s in states:
             rest = s.pc[plen:]
-            conds.append(z3.And(*rest) if rest else z3.BoolVal(True))
+            qf = [h for h in rest if not has_quantifier(h)]
+            qn = [h for h in rest if has_quantifier(h)]
+            if qn:
+                # quantified facts of one branch are kept outside the disjunction, guarded by a
+                # fresh selector p_i that is part of the branch condition: c_i = p_i /\ QF_i and
+                # (p_i -> U_i).  (The quantified part may itself be the branch test, e.g. `if s:`
+                # for a set, so QF_i alone is NOT the branch condition.)
+                p_i = z3.Bool(fresh_name('branch'))
+                c = z3.And(p_i, *qf)
+                hoisted.append(z3.Implies(p_i, z3.And(*qn)))
+            else:
+                c = z3.And(*qf) if qf else z3.BoolVal(True)
+            conds.append(c)
         m = states[0].copy()
         m.pc = list(base[:plen])
         for s in states[1:]:
@@ -908,6 +926,7 @@ class Executor:
             cur = s.alloc if s.alloc.eq(cur) else z3.If(c, s.alloc, cur)
         m.alloc = cur
         m.pc.append(z3.Or(*conds))
+        m.pc.extend(hoisted)
         gh = states[0].ghost
         for s in states[1:]:
             if set(s.ghost) != set(gh):
